@@ -383,6 +383,11 @@ def simplify_unitary(expr: e.Expr, t_name: str,
         for (i1, i2) in combinations(unitary_tensors, 2):
             idx1 = obj[i1].idx
             idx2 = obj[i2].idx
+            # U_pq U_pq = sum_q delta_qq: both indices are shared and only
+            # occur on this pair -> the trace can not be represented
+            if idx1 == idx2 and all(s not in target and idx_counter[s] == 2
+                                    for s in idx1):
+                continue
             # U_pq U_pr = delta_qr
             if idx1[0] == idx2[0] and idx1[0] not in target and \
                     idx_counter[idx1[0]] == 2:
